@@ -190,12 +190,18 @@ class Result:
                 elif line.startswith('X '):
                     self.exit = int(line[2:])
         self.handoffs = []
+        self.handoff_codes = []     # exit code the stand-in child was told to use (None: it did not get that far)
         n = 0
         while os.path.exists(os.path.join(d, 'qq.%d.msg' % n)):
             msg = open(os.path.join(d, 'qq.%d.msg' % n), 'rb').read()
             envp = os.path.join(d, 'qq.%d.env' % n)
             env = open(envp, 'rb').read() if os.path.exists(envp) else b''
             self.handoffs.append((msg, env))
+            dp = os.path.join(d, 'qq.%d.done' % n)
+            try:
+                self.handoff_codes.append(int(open(dp).read().strip()))
+            except (OSError, ValueError):
+                self.handoff_codes.append(None)
             n += 1
         qp = os.path.join(d, 'dnsqueries')
         self.dnsqueries = open(qp).read().split('\n')[:-1] if os.path.exists(qp) else []
